@@ -55,6 +55,12 @@ Definition fault_in_range (g : list node) (comb : nat -> list Z -> Z) (ft fp : n
   (fp < length (whole_of g comb ft))%nat \/
   (exists msgs, nth_error g ft = Some (Src msgs) /\ fp = length msgs).
 
+(* producer ft got to position fp in (the final state of) a run: it emitted message number fp, or - a
+   source only - it was asked for one more message when it had emitted exactly fp and ended *)
+Definition requested (g : list node) (st : state) (ft fp : nat) : Prop :=
+  (fp < ppos (get st ft))%nat \/
+  (fp = ppos (get st ft) /\ pdead (get st ft) = true /\ exists msgs, nth_error g ft = Some (Src msgs)).
+
 (* the injected failure actually happened: the faulty producer died at exactly that position and
    its topic was not declared exhausted *)
 Definition fired (fault : option (nat * nat)) (st : state) : Prop :=
